@@ -19,6 +19,8 @@ import (
 	"encoding/binary"
 	"errors"
 	"io"
+
+	"google.golang.org/protobuf/proto"
 )
 
 // flagEnvelopeCompressed indicates that the data is compressed. It has the
@@ -124,7 +126,12 @@ func (r *envelopeReader) Unmarshal(message any) *Error {
 		(env.Flags == 0 || env.Flags == flagEnvelopeCompressed) &&
 		env.Data.Len() == 0:
 		// This is a standard message (because none of the top 7 bits are set) and
-		// there's no data, so the zero value of the message is correct.
+		// there's no data, so the zero value of the message is correct. Callers
+		// may reuse one message for the whole stream, so make sure it doesn't
+		// keep the contents of an earlier message.
+		if protoMessage, ok := message.(proto.Message); ok {
+			proto.Reset(protoMessage)
+		}
 		return nil
 	case err != nil && errors.Is(err, io.EOF):
 		// The stream has ended. Propagate the EOF to the caller.
